@@ -278,6 +278,7 @@ let fetch_case_oracle (objs : (string * n list list) list) (evs : cev list) (imp
 
 let run_fetch () =
   let objs = ref [] and evs = ref [] and impl_log = ref [] and any_div = ref false and impl_quiet = ref false and sendfault = ref false in
+  let nonces : (string, string list) Hashtbl.t = Hashtbl.create 17 in
   let c = ref cl_init and evno = ref 0 and impl_cbs = ref [] and last_ev = ref "" and stop = ref false in
   let logs_len = ref [] in    (* per stream: number of callback records already printed *)
   let new_cb_lines () =
@@ -296,8 +297,16 @@ let run_fetch () =
       let line = input_line stdin in
       match String.split_on_char ' ' line with
       | ["FETCH"] -> incr ncases; c := cl_init; evno := 0; impl_cbs := []; logs_len := []; stop := false;
-          objs := []; evs := []; impl_log := []; any_div := false; impl_quiet := false; sendfault := false
+          objs := []; evs := []; impl_log := []; any_div := false; impl_quiet := false; sendfault := false; Hashtbl.reset nonces
       | "SENDERR" :: _ -> sendfault := true; stop := true
+      | ["NONCE"; xid; nm; nonce] ->
+          (* on the implementation's observations: every transmission of an Interest name carries a fresh nonce *)
+          let seen = (try Hashtbl.find nonces nm with Not_found -> []) in
+          if nonce = "none" then oracle "fetch:interest-without-nonce" (Printf.sprintf "express %s of %s" xid nm)
+          else if List.mem nonce seen then
+            oracle "fetch:retransmission-reuses-nonce"
+              (Printf.sprintf "express %s: Interest %s sent again with nonce %s, which an earlier transmission of the same name already carried (a forwarder drops it as a duplicate)" xid nm nonce);
+          Hashtbl.replace nonces nm (nonce :: seen)
       | ["QUIET"; q] -> impl_quiet := (q = "1")
       | ["OBJ"; nm; segs] -> objs := (nm, wire_of_string segs) :: !objs
       | "CB" :: sid :: complete :: err :: progress :: max :: [chunk] when !stop ->
